@@ -181,6 +181,39 @@ def r17_4(ctx: Ctx, rep: Report, fixture: bool = False) -> int:
     return hits
 
 
+def carried_flags(ctx: Ctx, rep: Report, rid: str = "R17.5", fixture: bool = False) -> int:
+    """No method remembers in a flag that "there is nothing to do" when what it would do depends on objects nested in the
+    object (ports, addresses): those are handed out to the user and change without the owner noticing, so the flag is
+    stale after `ace.dstport.items = [...]` and the next call skips the work."""
+    rep.rule(rid)
+    hits = 0
+    for cls in ctx.prog.classes.values():
+        for f in cls.methods.values():
+            if f.name.startswith("__"):
+                continue
+            flags = set()
+            for x in own_nodes(f.node):
+                if isinstance(x, ast.If) and x.body and isinstance(x.body[-1], ast.Return):
+                    t = x.test
+                    if isinstance(t, ast.UnaryOp) and isinstance(t.op, ast.Not):
+                        t = t.operand
+                    if isinstance(t, ast.Attribute) and src(t.value) == "self" and cls.lookup_getter(t.attr) is None:
+                        flags.add(t.attr)
+            for fl in sorted(flags):
+                sets = [x for x in own_nodes(f.node) if isinstance(x, ast.Assign) and any(isinstance(t, ast.Attribute) and src(t) == f"self.{fl}" for t in x.targets) and isinstance(x.value, ast.Constant) and x.value.value is True]
+                if not sets:
+                    continue
+                nested = [x for x in own_nodes(f.node) if isinstance(x, ast.Attribute) and isinstance(x.value, ast.Attribute) and src(x.value.value) == "self" and isinstance(x.ctx, ast.Load) and x.value.attr != fl]
+                if nested:
+                    hits += 1
+                    rep.violation(f.qualname, f"self.{fl} ... {snippet(sets[0], 30)}", f"the method returns early when self.{fl} is set and sets it itself after looking at `{snippet(nested[0], 30)}`: the nested object can change without this object noticing, and the next call answers from the flag", where(f, sets[0]), inp="ace.ungroup_ports(); ace.dstport.items = [80, 443]; ace.ungroup_ports()")
+    if not fixture:
+        rep.instance()
+        if hits == 0:
+            rep.ok("package", "no method keeps a 'nothing to do' flag over the state of nested objects", nontrivial=False)
+    return hits
+
+
 class _Top(set):
     """Must-assign set of a function that never returns normally: absorbing for union (vacuous truth)."""
 
@@ -407,6 +440,8 @@ def run(ctx: Ctx, rep: Report, tier: str) -> None:
     run_fixture("modstate", lambda c, r: r17_2(c, r, fixture=True), expect_violation="module-level")
     r17_4(ctx, rep)
     run_fixture("shared", lambda c, r: r17_4(c, r, fixture=True), expect_violation="one object for")
+    carried_flags(ctx, rep)
+    run_fixture("carried", lambda c, r: carried_flags(c, r, fixture=True), expect_violation="answers from the flag")
     n = memo_rules(ctx, rep, rid="R17.2m")
     if not n:
         rep.note("R17.2m no memoised method in the package")
